@@ -98,6 +98,7 @@ def _registry():
     from npstructures import RaggedArray
     from bionumpy.genomic_data import GenomicSequence
     from bionumpy.genomic_data.global_offset import GlobalOffset
+    from bionumpy.encodings.vcf_encoding import GenotypeRowEncoding, PhasedGenotypeRowEncoding
 
     def ivs(rng, n=None, disjoint=False):
         n = n if n is not None else rng.randint(1, 6)
@@ -162,6 +163,9 @@ def _registry():
                                                       lambda r: ((lambda iv: Interval(iv.chromosome, np.minimum(iv.start, 19), iv.stop + 12))(ivs(r)),), False),
         "GlobalOffset.start_ends_from_intervals[do_clip]": (lambda t: GlobalOffset({"chr1": 20, "chr2": 30}).start_ends_from_intervals(t, do_clip=True),
                                                             lambda r: ((lambda iv: Interval(iv.chromosome, np.minimum(iv.start, 19), iv.stop + 12))(ivs(r)),), False),
+        # genotype columns as text rows ending in a newline, encoded to genotype codes
+        "GenotypeRowEncoding.encode": (lambda t: GenotypeRowEncoding.encode(t), lambda r: (bnp.as_encoded_array(["0|1\t1|1\n", "1/1\t0/0\n", ".|.\t0|1\n"][:r.randint(1, 3)]),), False),
+        "PhasedGenotypeRowEncoding.encode": (lambda t: PhasedGenotypeRowEncoding.encode(t), lambda r: (bnp.as_encoded_array(["0|1\t1|1\n", "1|1\t0|0\n"][:r.randint(1, 2)]),), False),
         # several separators at once: the text that is split keeps all of them
         "split[two separators]": (lambda t: strops.split(t, [";", "="]), lambda r: (bnp.as_encoded_array(["a=1;b=22;c", "k=v"][r.randint(0, 1)] + ";x=y").copy(),), False),
         "get_kmers": (get_kmers, lambda r: (seqs(r), r.randint(1, 3)), False),
